@@ -31,7 +31,7 @@ import (
 
 func cases(tier string) int {
 	if tier == "thorough" {
-		return 36000
+		return 18000
 	}
 	return 2880
 }
